@@ -63,7 +63,9 @@ def gen_case(rng, i, tier, exhaustive_pool):
     else:
         x = [[math.exp(rng.uniform(-4, 2)) for _ in range(n - 1)] for _ in range(rows)]
     ops = [rng.choice(["cpu", "to"]) for _ in range(rng.choice([0, 0, 1, 2, 3]))]
-    return dict(tree=t, n=n, dates=dates, date_mode=mode, kind=kind, B=B, x=x, ops=ops)
+    # the increments may be written as several parameters joined by a CatParameter (inner nodes + root)
+    cat = kind == "shift" and n >= 3 and rng.random() < 0.4
+    return dict(tree=t, n=n, dates=dates, date_mode=mode, kind=kind, B=B, x=x, ops=ops, cat=cat)
 
 
 def build(case):
@@ -80,6 +82,10 @@ def build(case):
     if case["kind"] == "ratio":
         d["ratios"] = impl.param_json("ratios", [r[:-1] for r in x] if B else x[0][:-1])
         d["root_height"] = impl.param_json("root_height", [r[-1:] for r in x] if B else x[0][-1:])
+    elif case.get("cat"):
+        d["shifts"] = {"id": "shifts", "type": "CatParameter", "dim": -1, "parameters": [
+            impl.param_json("shifts.inner", [r[:-1] for r in x] if B else x[0][:-1]),
+            impl.param_json("shifts.root", [r[-1:] for r in x] if B else x[0][-1:])]}
     else:
         d["shifts"] = impl.param_json("shifts", x if B else x[0])
     return H.tracked(ReparameterizedTimeTreeModel, d)
@@ -226,7 +232,7 @@ def run(tier, seed, replay=None):
     undefined = 0
     for (ci, r), flat in zip(index, res):
         c, o = cases[ci], outs[ci]
-        key = f"{c['kind']}/{c['date_mode']}/n={c['n']}"
+        key = f"{c['kind']}{'(cat)' if c.get('cat') else ''}/{c['date_mode']}/n={c['n']}"
         dist[key] = dist.get(key, 0) + 1
         vals = o["nh"][r] + o["bl"][r] + o["xinv"][r]
         mod = [flat[k:k + 3] for k in range(0, len(flat), 3)]
